@@ -1,4 +1,5 @@
 import AFV.Lemmas.SearchExamples
+import AFV.Lemmas.MapspaceRef
 /-!
 # C01 — the mapper returns an optimum of the whole mapspace (abstract part only)
 
@@ -69,5 +70,88 @@ example : best [1, 0] (ffm opsChain 10 exTables) = some 7 ∧
 -- with a capacity that nothing fits, both sides are `none`
 example : best [1, 0] (ffm opsChain 5 exTables) = none ∧
     best [1, 0] (validCombos opsChain 5 exTables) = none := by decide
+
+/-! ## The reference mapspace (`AFV/Spec/Mapspace.lean`): the enumerator misses nothing, and `refBest` is the optimum
+
+`inSpace s m` is the declarative description of the mapspace of a single-Einsum spec (storage placements allowed by
+keep / may_keep and the memory hierarchy, any loop order, every perfectly factorising tile chain, plus the one
+validity rule of the cost model); `all s` is the enumerator the native driver runs (through `foldAll`). -/
+section Mapspace
+open AFV.Mapspace AFV.Nest
+
+/-- **`all_sound`**: everything the enumerator produces lies in the described space. -/
+theorem all_sound (s : SpecDesc) {m : Mapping Nat} (h : m ∈ all s) : inSpace s m = true :=
+  (mem_all_iff s m).1 h
+
+/-- **`all_complete`**: the enumerator misses no mapping of the described space — for every spec, no size bound. -/
+theorem all_complete (s : SpecDesc) {m : Mapping Nat} (h : inSpace s m = true) : m ∈ all s :=
+  (mem_all_iff s m).2 h
+
+/-- The fold the driver runs (nothing materialised) is `List.foldl` over `all s`. -/
+theorem foldAll_eq_foldl {β : Type} (s : SpecDesc) (f : β → Mapping Nat → β) (init : β) :
+    foldAll s f init = (all s).foldl f init := foldAll_eq s f init
+
+/-- … and the partial scans used to spread a spec over several processes fold over `allPart`. -/
+theorem foldAllPart_eq_foldl {β : Type} (s : SpecDesc) (i k : Nat) (f : β → Mapping Nat → β) (init : β) :
+    foldAllPart s i k f init = (allPart s i k).foldl f init := foldAllPart_eq s i k f init
+
+/-- **`refBest_le`**: no valid mapping of the mapspace (in the space, evaluable, within capacity) is better than
+`refBest`, for energy, latency and EDP. -/
+theorem refBest_le (metric : Metric) (s : SpecDesc) {b : Rat} (hb : refBest metric s = some b)
+    {m : Mapping Nat} (hm : inSpace s m = true) {c : Cost} (hc : cost s m = some c) (hf : c.fits = true) :
+    b ≤ metric.eval c :=
+  (minQ_eq_some hb).2 c (mem_validCosts.2 ⟨m, all_complete s hm, hc, hf⟩)
+
+/-- `refBest` is attained by a valid mapping of the mapspace. -/
+theorem refBest_attained (metric : Metric) (s : SpecDesc) {b : Rat} (hb : refBest metric s = some b) :
+    ∃ m c, inSpace s m = true ∧ cost s m = some c ∧ c.fits = true ∧ metric.eval c = b := by
+  obtain ⟨c, hc, hv⟩ := (minQ_eq_some hb).1
+  obtain ⟨m, hm, hcost, hfit⟩ := mem_validCosts.1 hc
+  exact ⟨m, c, all_sound s hm, hcost, hfit, hv⟩
+
+/-- `refBest = none` exactly when the mapspace has no valid mapping. -/
+theorem refBest_none_iff (metric : Metric) (s : SpecDesc) :
+    refBest metric s = none ↔ ∀ m c, inSpace s m = true → cost s m = some c → c.fits = false := by
+  unfold refBest
+  rw [minQ_eq_none]
+  constructor
+  · intro h m c hm hc
+    cases hf : c.fits with
+    | false => rfl
+    | true =>
+      have : c ∈ validCosts s (all s) := mem_validCosts.2 ⟨m, all_complete s hm, hc, hf⟩
+      rw [h] at this; cases this
+  · intro h
+    apply List.eq_nil_iff_forall_not_mem.2
+    intro c hc
+    obtain ⟨m, hm, hcost, hfit⟩ := mem_validCosts.1 hc
+    rw [h m c (all_sound s hm) hcost] at hfit
+    cases hfit
+
+/-! ### Non-vacuity: a 2-level matmul-like spec with bounds (2, 2), two tensors -/
+
+/-- Two rank variables of bound 2, tensor 0 indexed by both, tensor 1 (output) by the first; MainMemory keeps both,
+a buffer of 64 bits may keep either. -/
+def exSpec : SpecDesc :=
+  { arch := { levels := [{ (Level.dflt : Level Rat) with read := { energy := 10, throughput := 1 }, write := { energy := 10, throughput := 1 } },
+                         { (Level.dflt : Level Rat) with size := 64, read := { energy := 1, throughput := 1 }, write := { energy := 1, throughput := 1 } }],
+              compute := { energy := 1, throughput := 1, leak := 0, actionsScale := 1, skipInitial := true } }
+    bounds := [2, 2]
+    tensors := [{ rvs := [0, 1], isOutput := false, bpv := 8 }, { rvs := [0], isOutput := true, bpv := 8 }]
+    nInstances := 1
+    rules := [{ keep := [0, 1], mayKeep := [] }, { keep := [], mayKeep := [0, 1] }]
+    infSize := [true, false]
+    forceOrder := true }
+
+example : (all exSpec).length = 38 := by decide +kernel
+example : inSpace exSpec [.storage 0 [0] true, .storage 0 [1] true, .loop 0 1, .storage 1 [1] true, .loop 1 1, .compute] = true := by
+  decide +kernel
+-- a level-0 holder below a loop, a one-iteration loop and a missing tensor are all outside the space
+example : inSpace exSpec [.storage 0 [0] true, .loop 0 1, .storage 0 [1] true, .loop 1 1, .compute] = false := by decide +kernel
+example : inSpace exSpec [.storage 0 [0] true, .storage 0 [1] true, .loop 0 2, .loop 0 1, .loop 1 1, .compute] = false := by
+  decide +kernel
+example : inSpace exSpec [.storage 0 [0] true, .loop 0 1, .loop 1 1, .compute] = false := by decide +kernel
+
+end Mapspace
 
 end AFV.C01
